@@ -322,6 +322,8 @@ def main():
                        "refinement clause validated against scipy.linalg.expm with the bound 2 N C (x^5/120) e^x (1+..)^N n; not proved",
                        "exact comparison tolerance 1e-10 relative (model in exact rational arithmetic)"]
     chk.prove()
+    import translate
+    translate.static_tie(cm, chk, PID, cm.REPO)      # second, static tie: model regenerated from the current source
     items, meta = [], []
     if args.replay:
         rep = json.load(open(args.replay))
